@@ -493,8 +493,9 @@ def run(ctx):
             ctx.violation({'kind': 'C20-prepbufr', 'result': str(res)[:300]}, 'prepbufr.bufr does not decode')
         else:
             ctx.dist['prepbufr-messages'] += len(res['ok'])
-    ctx.partial = ['_fix_ncep_descriptors (replication-only sequences adopting the following descriptor): the adoption is done by the '
-                   'harness oracle when it builds the model template (used twice with different targets per history), not by the Coq model',
+    ctx.partial = ['the template of a data message is built by Template.v plus NcepFix.fixl (both proved); which Table B/D entries it is '
+                   'built FROM after a definition message is the merged lookup of TableDef.v; the composition "definition values -> '
+                   'entries -> template -> decoded values" is exercised end to end by the histories, each link proved separately',
                    'definition_then_data at model level relies on C13\'s tg_get_pure_guarded (invalidate then add_extra)']
     ctx.assumptions = ['each history runs in a fresh interpreter; the definition message itself is built with the implementation\'s encoder']
 
